@@ -28,6 +28,10 @@ func TestFamily(t *testing.T) {
 		scs = beatScenarios(seed, EnvInt("VERIF_NRANDOM", 40))
 	case "flow", "life", "upg", "poll":
 		scs = append(replayFamily(behs), scriptFamily(fam, seed, EnvInt("VERIF_NRANDOM", 40))...)
+	case "hs":
+		scs = hsScenarios(behs)
+	case "rt":
+		scs = rtScenarios(behs)
 	case "cont":
 		runtime.GOMAXPROCS(4)
 		scs = contScenarios(behs, seed, EnvInt("VERIF_NRANDOM", 60))
